@@ -271,6 +271,31 @@ theorem cg_history_stateless (o : CGObj ℝ) (cs : List (CGCall ℝ)) :
     (cgHistory o cs).2 = cs.map (fun c => cgForward c.n o.tol o.maxiter c.A c.b c.x0 c.M) := by
   rw [cgHistory_eq]; exact ⟨rfl, rfl⟩
 
+/-- **atomicity of a failing call** — in a history in which some calls raise (`none`) and the caller goes on with the
+same object: the object is unchanged at the end, a failed call contributes nothing, and the successful calls return
+exactly what they return in the history WITHOUT the failed calls. -/
+theorem cg_history_atomic (o : CGObj ℝ) (cs : List (Option (CGCall ℝ))) :
+    (cgHistoryE o cs).1 = o ∧
+    (cgHistoryE o cs).2.filterMap id = (cgHistory o (cs.filterMap id)).2 := by
+  rw [cgHistoryE_eq, cgHistory_eq]
+  refine ⟨rfl, ?_⟩
+  simp only []
+  induction cs with
+  | nil => rfl
+  | cons c cs ih =>
+    cases c with
+    | none => simpa using ih
+    | some c => simpa using ih
+
+/-- **independence of copies** — two solver objects used alternately (an object and its `deepcopy` / `copy` / unpickled /
+`state_dict`-loaded copy): both come back unchanged and every call returns what ITS OWN object alone returns on that
+system; in particular with `o2 = o1` (a faithful copy) every call equals a fresh solver's. -/
+theorem cg_copies_independent (o1 o2 : CGObj ℝ) (cs : List (Bool × CGCall ℝ)) :
+    (cgHistory2 o1 o2 cs).1 = (o1, o2) ∧
+    (cgHistory2 o1 o2 cs).2 = cs.map (fun wc =>
+      cgForward wc.2.n (if wc.1 then o1 else o2).tol (if wc.1 then o1 else o2).maxiter wc.2.A wc.2.b wc.2.x0 wc.2.M) := by
+  rw [cgHistory2_eq]; exact ⟨rfl, rfl⟩
+
 /-- **the budget of call `k` depends only on call `k`'s own `n`**: with the default `maxiter = None` the pass counts
 of a history are bounded, position by position, by `map (fun c => 10 · c.n)` — never by the size of an earlier system. -/
 theorem cg_history_budgets (tol : ℝ) (cs : List (CGCall ℝ)) :
